@@ -33,6 +33,9 @@ pub enum AgentCase {
     MomentumMarket { path: Vec<(u32, u32)>, n: u16, seed: u64, #[serde(default = "one")] decay: f64 },
     /// rounding
     Round { p: f64, tick: u32 },
+    /// momentum agents (single-asset, or multi-asset on asset 1): a price move makes every trader place a limit order (saturated, order ratio 1), then QUIET steps
+    /// (unchanged mid-price) with p_cancel >= 1: every live order of the agents must be cancelled ("an action with probability at least 1 always happens")
+    MomentumQuiet { n: u16, seed: u64, market: bool, tick: u32 },
     /// random agents: tick range, steps
     Random { tick: u32, lo: u32, hi: u32, n: usize, rate: f32, steps: u32, seed: u64 },
 }
@@ -121,6 +124,17 @@ fn run_case_inner(c: &AgentCase) -> Vec<Failure> {
                 agents.update(&mut env, &mut rng);
                 let (lo_id, hi_id) = (10u32, 10 + *n as u32);
                 check_cancellations(&env, q0, &|t| t >= lo_id && t < hi_id, s as usize, &mut out);
+                if *p_cancel >= 1.0 || *p_cancel == 0.0 {
+                    for o in env.get_orders()[..n0].iter().filter(|o| o.trader_id >= lo_id && o.trader_id < hi_id && o.status == Status::Active) {
+                        let hit = env.verif_transactions()[q0..].iter().any(|ev| matches!(ev, Event::Cancellation { order_id } if *order_id == o.order_id));
+                        if *p_cancel >= 1.0 && !hit {
+                            out.push(fail("C16.certain_probability_always", format!("step {}: p_cancel >= 1 but the live order {} of trader {} was not cancelled", s, o.order_id, o.trader_id)));
+                        }
+                        if *p_cancel == 0.0 && hit {
+                            out.push(fail("C16.zero_probability_never", format!("step {}: p_cancel = 0 but order {} was cancelled", s, o.order_id)));
+                        }
+                    }
+                }
                 let new: Vec<Order> = env.get_orders()[n0..].iter().map(|o| **o).collect();
                 for o in new.iter() {
                     let market = (is_bid(o.side) && o.price == u32::MAX) || (!is_bid(o.side) && o.price == 0);
@@ -291,6 +305,78 @@ fn run_case_inner(c: &AgentCase) -> Vec<Failure> {
                 if !out.is_empty() { return out; }
             }
         }
+        AgentCase::MomentumQuiet { n, seed, market, tick } => {
+            let tk = *tick;
+            let params = MomentumParams { tick_size: tk, p_cancel: 1.0, trade_vol: 10, decay: 1.0, demand: 1.0e6, scale: 1.0, order_ratio: 1.0, price_dist_mu: 0.0, price_dist_sigma: 0.5 };
+            let mut rng = Xoroshiro128StarStar::seed_from_u64(*seed);
+            let own = |t: u32| t >= 100 && t < 100 + *n as u32;
+            if !*market {
+                let mut env: Env = Env::new(0, tk, 1_000_000, true);
+                let mut ag = MomentumAgent::new(100, *n, params);
+                env.place_order(Side::Bid, 1_000_000, 0, Some(1000 * tk)).unwrap();
+                env.place_order(Side::Ask, 1_000_000, 0, Some(1010 * tk)).unwrap();
+                env.step(&mut rng);
+                ag.update(&mut env, &mut rng);
+                env.step(&mut rng);
+                env.place_order(Side::Bid, 1_000_000, 0, Some(1008 * tk)).unwrap();
+                env.step(&mut rng);
+                ag.update(&mut env, &mut rng);
+                env.step(&mut rng);
+                for s in 0..3usize {
+                    let live: Vec<usize> = env.get_orders().iter().filter(|o| own(o.trader_id) && o.status == Status::Active).map(|o| o.order_id).collect();
+                    if s == 0 && live.is_empty() {
+                        out.push(fail("C17.limit_buys_when_rising", format!("after a rise at saturated demand and order ratio 1 no agent order rests ({} traders)", n)));
+                    }
+                    let q0 = env.verif_transactions().len();
+                    ag.update(&mut env, &mut rng);
+                    check_cancellations(&env, q0, &own, s, &mut out);
+                    for id in live.iter() {
+                        let hit = env.verif_transactions()[q0..].iter().any(|ev| matches!(ev, Event::Cancellation { order_id } if order_id == id));
+                        if !hit {
+                            out.push(fail("C16.certain_probability_always", format!("quiet step {}: p_cancel = 1 but the agents' live order {} was not cancelled", s, id)));
+                        }
+                    }
+                    env.step(&mut rng);
+                    if !out.is_empty() { return out; }
+                }
+            } else {
+                let mut env: MarketEnv<2, 3> = MarketEnv::new(0, [1, tk], 1_000_000, true);
+                let mut ag = MomentumMarketAgent::new(100, *n, 1, params);
+                env.place_order(1, Side::Bid, 1_000_000, 0, Some(1000 * tk)).unwrap();
+                env.place_order(1, Side::Ask, 1_000_000, 0, Some(1010 * tk)).unwrap();
+                env.step(&mut rng);
+                ag.update(&mut env, &mut rng);
+                env.step(&mut rng);
+                env.place_order(1, Side::Bid, 1_000_000, 0, Some(1008 * tk)).unwrap();
+                env.step(&mut rng);
+                ag.update(&mut env, &mut rng);
+                env.step(&mut rng);
+                for s in 0..3usize {
+                    let live: Vec<usize> = env.get_orders(1).iter().filter(|o| own(o.trader_id) && o.status == Status::Active).map(|o| o.order_id).collect();
+                    if s == 0 && live.is_empty() {
+                        out.push(fail("C17.limit_buys_when_rising", format!("multi-asset: after a rise at saturated demand and order ratio 1 no agent order rests ({} traders)", n)));
+                    }
+                    let q0 = env.verif_transactions().len();
+                    ag.update(&mut env, &mut rng);
+                    for ev in env.verif_transactions()[q0..].iter() {
+                        if let Event::Cancellation { order_id } = ev {
+                            let o = env.order(*order_id);
+                            if order_id.0 != 1 || o.status != Status::Active || !own(o.trader_id) {
+                                out.push(fail("C16.cancel_only_active", format!("quiet step {}: a cancellation was queued for order {:?} (status {:?}, trader {})", s, order_id, o.status, o.trader_id)));
+                            }
+                        }
+                    }
+                    for id in live.iter() {
+                        let hit = env.verif_transactions()[q0..].iter().any(|ev| matches!(ev, Event::Cancellation { order_id } if order_id.0 == 1 && order_id.1 == *id));
+                        if !hit {
+                            out.push(fail("C16.certain_probability_always", format!("multi-asset, quiet step {}: p_cancel = 1 but the agents' live order {} was not cancelled", s, id)));
+                        }
+                    }
+                    env.step(&mut rng);
+                    if !out.is_empty() { return out; }
+                }
+            }
+        }
         AgentCase::Round { p, tick } => {
             let (d, u) = (round_price_down(*p, f64::from(*tick)), round_price_up(*p, f64::from(*tick)));
             if d % tick != 0 || u % tick != 0 {
@@ -349,6 +435,8 @@ pub fn search_agents(prop: &str, seed: u64) -> Option<(AgentCase, Vec<Failure>)>
                 cases.push(AgentCase::Noise { tick, sigma, p_limit: pl, p_market: pm, p_cancel: 0.1, n: 5, steps: 40, seed });
             }
         }
+        cases.push(AgentCase::Noise { tick: 2, sigma: 1.0, p_limit: 1.0, p_market: 0.0, p_cancel: 1.0, n: 4, steps: 30, seed });
+        cases.push(AgentCase::Noise { tick: 1, sigma: 1.0, p_limit: 0.7, p_market: 0.2, p_cancel: 0.0, n: 4, steps: 30, seed });
         for tick in [1u32, 2, 3, 7, 10] {
             for p in [0.0f64, 0.5, 101.0, 100.99999999, 4294967200.0] {
                 cases.push(AgentCase::Round { p, tick });
@@ -378,6 +466,9 @@ pub fn search_agents(prop: &str, seed: u64) -> Option<(AgentCase, Vec<Failure>)>
         cases.push(AgentCase::Momentum { path: vec![(1000, 1002), (1032, 1034), (1028, 1030), (1028, 1030), (1000, 1002)], n: 2, decay: 0.5, order_ratio: 1.0, seed, demand: 1.0e6 });
         cases.push(AgentCase::Momentum { path: vec![(1000, 1002), (968, 970), (972, 974), (972, 974), (1000, 1002)], n: 2, decay: 0.5, order_ratio: 1.0, seed, demand: 1.0e6 });
         cases.push(AgentCase::Momentum { path: vec![(1000, 1002), (968, 970), (972, 974), (990, 992)], n: 3, decay: 0.5, order_ratio: 2.0, seed: seed + 2, demand: 1.0e6 });
+        for (n, market, tick) in [(3u16, false, 1u32), (5, true, 2), (2, false, 5), (4, true, 1)] {
+            cases.push(AgentCase::MomentumQuiet { n, seed, market, tick });
+        }
         // barely saturated demand: the probability is |demand * tanh(scale * M)| / n with n the NUMBER of traders
         cases.push(AgentCase::Momentum { path: vec![(1000, 1002), (1020, 1022), (1000, 1002), (1030, 1032)], n: 3, decay: 1.0, order_ratio: 0.0, seed, demand: 3.6 });
     }
